@@ -52,7 +52,8 @@ def _run(ctx, spec):
             ctx.broken.append(("stage-hook", spec["id"], str(e)[-1500:]))
 
     # ---- 1. Coq side: regenerate extracted facts, rebuild the cone, read Print Assumptions
-    targets = [pfile[:-2] + ".vo", corr_file[:-2] + ".vo"] + [t[:-2] + ".vo" for t in spec.get("extra_targets", [])]
+    extra_corr = sorted({d["corr_module"].replace(".", "/") + ".v" for d in spec.get("drivers", []) if d.get("corr_module")})
+    targets = [pfile[:-2] + ".vo", corr_file[:-2] + ".vo"] + [t[:-2] + ".vo" for t in spec.get("extra_targets", []) + extra_corr]
     ok, failing, out = vlib.prepare_coq(ctx, targets)
     names, bad = vlib.obligations(ctx.coq, pfile)
     proofs_ok = ok and not bad
@@ -94,6 +95,7 @@ def _run(ctx, spec):
             ctx.broken.append(("driver-run", d["test"], r.out[-3000:]))
         for c in r.cases:
             c["_driver"] = d["test"]
+            c["_corr"] = d.get("corr_module", corr)
         all_cases += r.cases
 
     # implementation-only assertions reported by drivers ({"impl_violation": "...", ...})
@@ -113,16 +115,24 @@ def _run(ctx, spec):
         if "coq" in c:
             eval_cases.append(c)
 
-    # ---- 3. evaluate agree / holds / known in Coq
+    # ---- 3. evaluate agree / holds / known in Coq (a property may have several case types)
     res = {}
-    if corr_ok and eval_cases:
+    corr_modules = sorted({c["_corr"] for c in eval_cases})
+    for cm in corr_modules:
+        cm_file = cm.replace(".", "/") + ".v"
+        if not os.path.exists(os.path.join(ctx.coq, cm_file[:-2] + ".vo")):
+            ok3, _, _ = vlib.make_coq(ctx.coq, [cm_file[:-2] + ".vo"])
+            if not ok3:
+                ctx.broken.append(("corr-build", cm_file, ""))
+                continue
+        idx = [i for i, c in enumerate(eval_cases) if c["_corr"] == cm]
         try:
-            res = vlib.coq_eval(ctx, corr, eval_cases)
+            sub = vlib.coq_eval(ctx, cm, [eval_cases[i] for i in idx])
+            for k, v in sub.items():
+                res[idx[k]] = v
         except RuntimeError as e:
             log(str(e)[-4000:])
-            ctx.broken.append(("case-eval", corr, str(e)[-1500:]))
-    elif eval_cases:
-        ctx.broken.append(("corr-build", corr_file, ""))
+            ctx.broken.append(("case-eval", cm, str(e)[-1500:]))
 
     classes = spec.get("known_classes", {})
     kf = vlib.known_findings()
